@@ -108,6 +108,32 @@ AWind(q, T2) ==     \* q and the triangles T2 in the same (doubled) integer fram
 Dbl3(p) == <<2 * p[1], 2 * p[2], 2 * p[3]>>
 DblTris(T) == {<<Dbl3(t[1]), Dbl3(t[2]), Dbl3(t[3])>> : t \in T}
 
+(* ---- form factor on the quarter-period lattice (C12) ------------------------------------------ *)
+\* For q = (pi/2) m with integer m the Fourier integral of a unit cell factorises and every phase is a power of -i:
+\*   int_c^{c+1} exp(-i (pi/2) m x) dx = 1                                            (m = 0)
+\*                                     = (2 / (pi m)) * i * ((-i)^(m(c+1)) - (-i)^(m c))  (m # 0)
+\* so  F(q) = G(m) * 2^nz / (pi^nz * prod of the non-zero m_k)  with G a Gaussian integer <<re, im>>.
+PowMinusI(k) == LET r == k % 4 IN CASE r = 0 -> <<1, 0>> [] r = 1 -> <<0, -1>> [] r = 2 -> <<-1, 0>> [] r = 3 -> <<0, 1>>
+GMul(a, b) == <<a[1] * b[1] - a[2] * b[2], a[1] * b[2] + a[2] * b[1]>>
+GAdd(a, b) == <<a[1] + b[1], a[2] + b[2]>>
+GSub(a, b) == <<a[1] - b[1], a[2] - b[2]>>
+Axis1(m, c) == IF m = 0 THEN <<1, 0>> ELSE GMul(<<0, 1>>, GSub(PowMinusI(m * (c + 1)), PowMinusI(m * c)))
+CellFF(m, c) == GMul(GMul(Axis1(m[1], c[1]), Axis1(m[2], c[2])), Axis1(m[3], c[3]))
+RECURSIVE GSumCells(_, _)
+GSumCells(m, C) == IF C = {} THEN <<0, 0>> ELSE LET c == CHOOSE x \in C : TRUE IN GAdd(CellFF(m, c), GSumCells(m, C \ {c}))
+FFWaves == << <<0, 0, 0>>, <<1, 0, 0>>, <<0, 2, 0>>, <<0, 0, -3>>, <<1, 1, 0>>, <<2, -1, 0>>, <<0, 3, 1>>, <<1, 2, 3>>,
+              <<-3, 1, 2>>, <<4, 4, 4>>, <<5, -2, 1>>, <<6, 0, 0>>, <<0, -5, 5>>, <<-1, -1, -1>>, <<7, 3, -2>> >>
+FFRecord(C) == [i \in 1..Len(FFWaves) |->
+    LET m == FFWaves[i]  nzs == {k \in 1..3 : m[k] # 0} IN
+    [m |-> m, g |-> GSumCells(m, C), nz |-> Cardinality(nzs),
+     mprod |-> (IF m[1] = 0 THEN 1 ELSE m[1]) * (IF m[2] = 0 THEN 1 ELSE m[2]) * (IF m[3] = 0 THEN 1 ELSE m[3])]]
+\* T1: F(0) = volume, F(-q) = conj F(q); in terms of G the prefactor changes sign with every non-zero m_k:
+\*     G(-m) = (-1)^nz * conj G(m)
+T1_FF(C) == /\ GSumCells(<<0, 0, 0>>, C) = <<Cardinality(C), 0>>
+            /\ \A i \in 1..Len(FFWaves) : LET m == FFWaves[i]  a == GSumCells(m, C)  b == GSumCells(<<-m[1], -m[2], -m[3]>>, C)
+                                                 sg == IF Cardinality({k \in 1..3 : m[k] # 0}) % 2 = 0 THEN 1 ELSE -1
+                                             IN b = <<sg * a[1], -sg * a[2]>>
+
 (* ---- T1 ------------------------------------------------------------------------------------- *)
 QBox == (-1..2 * NX + 1) \X (-1..2 * NY + 1) \X (-1..2 * NZ + 1)
 T1_Failing == LET C == cells  T == SurfTris(C)  n == DVol(C) IN
@@ -116,6 +142,7 @@ T1_Failing == LET C == cells  T == SurfTris(C)  n == DVol(C) IN
     ELSE IF AEbVol(T) # 6 * n THEN "T1_EberlyVolume"              \* sum n_x f1_x = 6 V
     ELSE IF \E k \in 1..3 : AEbCen(T, k) * 2 # 24 * DCen2(C)[k] THEN "T1_EberlyCentroid"   \* sum n o f2 = 24 V c = 12 * DCen2
     ELSE IF \E k, l \in 1..3 : AMom120(T, k, l) # 10 * DMom12(C, k, l) THEN "T1_Inertia"
+    ELSE IF ~T1_FF(C) THEN "T1_FormFactor"
     ELSE IF \E q \in QBox : LET m == DMember(q, C) IN m # 2 /\ ((AWind(q, DblTris(T)) # 0) # (m = 1)) THEN "T1_Winding"
     ELSE "none"
 T1_All == LET f == T1_Failing IN f = "none" \/ ~PrintT(<<"T1-FAILED", f, cells>>)
@@ -136,6 +163,7 @@ Record ==
          vol |-> DVol(C), area |-> DArea(C), cen2 |-> DCen2(C),
          mom12 |-> [a \in 1..3 |-> [b \in 1..3 |-> DMom12(C, a, b)]],
          dev_mom120_absdet |-> [a \in 1..3 |-> [b \in 1..3 |-> Dev_AMom120_AbsDet(SurfTris(C), a, b)]],
+         ff |-> FFRecord(C),
          q2 |-> QSeq, mem |-> [i \in 1..Len(QSeq) |-> DMember(QSeq[i], C)] ]
 Emit == (EmitOn /\ Cardinality(cells) >= MinEmit) => PrintT(ToJson(Record))
 ViewC == cells
